@@ -61,6 +61,9 @@ type thread struct {
 	goid   int64
 	// rendezvous partner bookkeeping
 	rdvPartner bool
+	// off is the clock offset of the node this thread works for (package-level vtime functions add it);
+	// spawned threads inherit it
+	off time.Duration
 }
 
 // MutexState is the logical state of a vsync mutex.
@@ -648,17 +651,29 @@ func Go(f func()) {
 		go f()
 		return
 	}
-	s.newThread(f, "go")
+	s.newThread(f, "go").off = t.off
+}
+
+// SetThreadOffset sets the clock offset seen by the calling thread through the package-level vtime functions
+// (the harness switches it to the target node's skew around an RPC or a command) and returns the previous one.
+func SetThreadOffset(d time.Duration) time.Duration {
+	t := cur()
+	if t == nil {
+		return 0
+	}
+	old := t.off
+	t.off = d
+	return old
 }
 
 // GoNamed spawns a named thread (harness use).
 func GoNamed(name string, f func()) {
-	s, _ := active()
+	s, t := active()
 	if s == nil {
 		go f()
 		return
 	}
-	s.newThread(f, name)
+	s.newThread(f, name).off = t.off
 }
 
 // Yield is an explicit scheduling point.
@@ -1041,6 +1056,15 @@ func VNow() time.Time {
 		return Epoch
 	}
 	return t.s.now
+}
+
+// VNowLocal is VNow plus the calling thread's clock offset (what package time shows to instrumented code).
+func VNowLocal() time.Time {
+	t := cur()
+	if t == nil {
+		return Epoch
+	}
+	return t.s.now.Add(t.off)
 }
 
 // SortedKeys returns the keys of m in ascending order; instrumented code iterates maps through it so that
